@@ -112,3 +112,33 @@ Example C01_pandas_example :
   exists ts w, VT_init ex_ctx_pandas (VT_blank ex_ctx_pandas) complete_set [] = Ok (tt, ts, w) /\
     exists ts', VT_detect ex_ctx_pandas 30 ts ex_float_series = Ok ((ex_float_series, [tGeneric; tFloat], tt), ts').
 Proof. eexists. eexists. split; [vm_compute; reflexivity|]. eexists. vm_compute. reflexivity. Qed.
+
+(* ---- Part 4: the same composition for the Python-list backend: the membership predicates generated from
+   backends/python/types/*.py over the abstract lists of lib/PyValues.v.  For EVERY list, EVERY parent-closed list of shipped
+   types containing Generic in ANY supply and set-iteration order, and ANY guards/transformers on the inference relations. *)
+From V Require PyValues PythonContains_gen PythonDetect.
+Theorem C01_python_list_end_to_end :
+  forall (si : list ty -> list ty), (forall l, NoDup l -> Permutation (si l) l) ->
+  forall (oguard : ty -> ty -> PyValues.pseq -> unit -> res (bool * unit)) (otrans : ty -> ty -> PyValues.pseq -> unit -> res (PyValues.pseq * unit))
+         types w fuel (d : PyValues.pseq),
+    In tGeneric types -> parent_closed types = true ->
+    let X := PythonDetect.python_ctx si oguard otrans in
+    exists ts w', VT_init X (VT_blank X) types w = Ok (tt, ts, w') /\
+      forall out ts', VT_detect X fuel ts d = Ok (out, ts') ->
+      exists rest,
+        out = (d, tGeneric :: rest, tt) /\
+        Forall (fun v => PythonContains_gen.python_contains v d = true) rest /\
+        parent_chain X tGeneric rest /\ Forall (fun v => In v types) rest /\
+        (forall v, In v types -> identity_parent_of X (last rest tGeneric) v -> PythonContains_gen.python_contains v d = false).
+Proof. intros si Hsi oguard otrans. exact (PythonDetect.python_detect_sound si Hsi oguard otrans). Qed.
+Print Assumptions C01_python_list_end_to_end.
+
+(* non-vacuity: a list of two non-negative Python ints is detected Generic -> Integer -> Count by CompleteSet's constructor output;
+   the empty list stays at Generic *)
+Definition ex_int_list : PyValues.pseq := [PyValues.mkP PyValues.PInt true true false false false; PyValues.mkP PyValues.PInt false true false false false].
+Definition ex_ctx_python := PythonDetect.python_ctx (fun l => l) (fun _ _ _ st => Ok (false, st)) (fun _ _ s st => Ok (s, st)).
+Example C01_python_list_example :
+  exists ts w, VT_init ex_ctx_python (VT_blank ex_ctx_python) complete_set [] = Ok (tt, ts, w) /\
+    (exists ts', VT_detect ex_ctx_python 30 ts ex_int_list = Ok ((ex_int_list, [tGeneric; tInteger; tCount], tt), ts')) /\
+    (exists ts', VT_detect ex_ctx_python 30 ts [] = Ok (([], [tGeneric], tt), ts')).
+Proof. eexists. eexists. split; [vm_compute; reflexivity|]. split; eexists; vm_compute; reflexivity. Qed.
